@@ -301,10 +301,57 @@ def scen_proxy_refs():
     return bad
 
 
+def scen_callmethod():
+    """one call through a proxy whose answer is an object of its own (#PROXY): a proxy for that object, and the transit
+    reference of *that* object given back; plain values handed on unchanged"""
+    bad = []
+    sent = []
+    real_dispatch = M.dispatch
+    M.dispatch = lambda c, id, name, args=(), kwds={}: sent.append((c, id, name, args))
+    try:
+        for kind in ('#RETURN', '#PROXY'):
+            del sent[:]
+            p = M.BaseProxy.__new__(M.BaseProxy)
+            p._token = M.Token('parent', ('addr', 1), 'parent-id')
+            p._id, p._authkey, p._serializer = 'parent-id', b'key', 'pickle'
+            made, conns, reqs = [], [], []
+
+            class Mgr:
+                _registry = {'child': (None, None, None, lambda tok, ser, **kw: made.append((tok, kw)) or 'child-proxy')}
+            p._manager = Mgr()
+            child = M.Token('child', None, 'child-id')
+
+            class Conn:
+                def send(self, m):
+                    reqs.append(m)
+
+                def recv(self):
+                    return ('#RETURN', 41) if kind == '#RETURN' else ('#PROXY', (('meth',), child))
+            p._tls = threading.local()
+            p._tls.connection = Conn()
+            p._Client = lambda addr, authkey=None: conns.append((addr, authkey)) or 'conn'
+            got = p._callmethod('meth', (1,), {'k': 2})
+            if reqs != [('parent-id', 'meth', (1,), {'k': 2})]:
+                bad.append('_callmethod sent %r' % (reqs,))
+            if kind == '#RETURN':
+                if got != 41 or sent or conns:
+                    bad.append('_callmethod on a plain value: returned %r, extra requests %r' % (got, sent))
+            else:
+                if got != 'child-proxy' or len(made) != 1 or made[0][0] is not child or child.address != ('addr', 1):
+                    bad.append('_callmethod on a returned object: result %r, proxies made %r' % (got, made))
+                if [(n, a) for (_, _, n, a) in sent] != [('decref', ('child-id',))]:
+                    bad.append('_callmethod on a returned object: the reference given back afterwards is %r (expected one '
+                               'decref for the returned object child-id, not for the object the method was called on)' % (
+                                   [(n, a) for (_, _, n, a) in sent],))
+    finally:
+        M.dispatch = real_dispatch
+    return bad
+
+
 def main():
     data = json.load(open(sys.argv[1]))
     print('replay of %s / %s' % (data['function'], data['obligation']))
-    bad = scen_tables() + scen_handle() + scen_serve() + scen_proxy_refs()
+    bad = scen_tables() + scen_handle() + scen_serve() + scen_proxy_refs() + scen_callmethod()
     for b in bad[:8]:
         print('  violation on real code: ' + b)
     print('REPRODUCED on real code' if bad else 'not reproduced')
